@@ -8,9 +8,16 @@ PROPS = {
         level_text='Every obligation generated from the real bodies of the C3 merge functions of ro.py '
                    '(_can_choose_base, _nonempty_bases_ignoring, _find_next_C3_base, _choose_next_base, '
                    '_guess_next_base x2, _merge, mro) against the textbook C3 definition is discharged for all inputs '
-                   'and all iteration counts; the glue (resolver construction, legacy fallback order, _calculate_sro) '
-                   'is checked bounded on all ordered DAGs up to 4/5 nodes with re-basing histories, labelled bounded.',
-        level_note='Assumes A1-A6 of DESIGN 3.5; assumed contracts: legacy_ro (spec function), warnings are no-ops; '
+                   'and all iteration counts; the public entry points are verified on top of them: ro() returns the C3 merge of the '
+                   'resolver\'s base tree when it exists, the legacy order otherwise or when asked for, and raises '
+                   'InconsistentResolutionOrderError exactly in strict mode without a merge (the logging block cannot change the result); '
+                   'is_consistent computes the leaf\'s own merge before reading the flags and answers False exactly when the own merge or a '
+                   'base is inconsistent; Specification._calculate_sro returns that order with the root specification (Interface) moved to '
+                   'the end. The construction of the resolver tree (C3.resolver/C3.__init__: recursion over the bases, memo table, single-base '
+                   'fast path) and the legacy fallback order are an assumed contract, checked bounded on all ordered DAGs up to 4/5 nodes with '
+                   're-basing histories against CPython\'s own MRO, labelled bounded.',
+        level_note='Assumes A1-A6 of DESIGN 3.5; assumed contracts: C3.resolver/C3.__init__ (resolver tree), legacy_ro (spec function), '
+                   'warnings/logging are no-ops, the {base: base.__sro__} dictionary is folded into the specification function; '
                    'the mathematical lemma "C3 merge of linearizations is a linearization" is not machine-checked.',
     ),
     'C18': dict(
